@@ -321,13 +321,15 @@ def s_direct(draw):
     elif kind == 'constant':
         if exact:
             a, d = draw(st.integers(0, 64)) / 8, draw(st.integers(1, 64)) / 8
-            r = {'rule': 'constant', 'start': [a, 'sec'], 'duration': [d, 'sec'], 'value': draw(st.floats(-1, 1))}
+            r = {'rule': 'constant', 'start': [a, 'sec'], 'duration': [d, 'sec'],
+                 'value': draw(st.one_of(st.floats(-1, 1), st.sampled_from([0, 0.0, 1, -1])))}
             stt['t'] = [draw(st.sampled_from([a, a + d, a - 0.125, a + d + 0.125, a + d / 2])), 'sec']
             stt['t'][0] = max(stt['t'][0], 0.0)
         else:
             a, d = draw(st.floats(0, 100)), draw(st.floats(0.01, 100))
             r = {'rule': 'constant', 'start': G.qty('Time', a, draw(G.s_unit('Time'))),
-                 'duration': G.qty('TimeInterval', d, draw(G.s_unit('TimeInterval'))), 'value': draw(st.floats(-1, 1))}
+                 'duration': G.qty('TimeInterval', d, draw(G.s_unit('TimeInterval'))),
+                 'value': draw(st.one_of(st.floats(-1, 1), st.sampled_from([0, 0.0, 1, -1])))}
             edge = draw(st.sampled_from([a, a + d]))
             stt['t'] = G.qty('Time', max(0.0, edge + side * off * d), draw(G.s_unit('Time')))
     else:
@@ -417,7 +419,7 @@ def s_sim(draw, max_steps=60):
             a = T * draw(st.floats(0, 0.3))
             rules.append({'rule': 'constant', 'start': G.qty('Time', a, draw(G.s_unit('Time'))),
                           'duration': G.qty('TimeInterval', T * draw(st.floats(0.05, 0.2)), draw(G.s_unit('TimeInterval'))),
-                          'value': G._duty(draw(st.floats(-1, 1)))})
+                          'value': G._duty(draw(st.one_of(st.floats(-1, 1), st.sampled_from([0, 0.0, 0.5, -0.5]))))})
     case['control'] = rules
     case['history'] = [dict(run, control=True)]
     if draw(st.integers(0, 2)) == 0:
